@@ -764,7 +764,7 @@ class Interp:
     def eff_itv(self, st, vid):
         """interval of vid, tightened through relational facts when it is very wide"""
         lo, hi = st.itv[vid]
-        if hi - lo > (1 << 40) and st.facts:
+        if hi != lo and st.facts.d:
             for s, c in st.facts.out(vid):
                 hs = st.itv[s][1]
                 if hs + c < hi:
